@@ -102,7 +102,10 @@ func (s *Server) Observe(ctx *app.RequestContext) *Seen {
 	ctx.Request.Header.VisitAll(func(k, v []byte) {
 		sn.Headers = append(sn.Headers, httpref.Header{Name: string(k), Value: string(v)})
 	})
-	if ctx.Request.IsBodyStream() {
+	if strings.HasPrefix(sn.Path, "/noread") {
+		// a handler that answers without looking at the body (in streaming mode the framework has to skip it)
+		sn.BodyErr = "harness: body not read"
+	} else if ctx.Request.IsBodyStream() {
 		r := ctx.RequestBodyStream()
 		if s.BodyReader != nil {
 			s.BodyReader(ctx, r, sn)
